@@ -49,6 +49,15 @@ VARIANTS = {
 }
 
 
+# VERIF_COVERAGE=1 (used by bin/coverage only, never by a registered check): every gcc variant is also built
+# with --coverage, so that the lines each check's workload reaches can be measured
+if os.environ.get('VERIF_COVERAGE'):
+    for _n, _v in VARIANTS.items():
+        if _v['cc'] == 'gcc':
+            _v['c'] += ' --coverage'
+            _v['cxxf'] += ' --coverage'
+
+
 def _sh(cmd, cwd=None, log=None):
     p = subprocess.run(cmd, cwd=cwd, stdout=subprocess.PIPE, stderr=subprocess.STDOUT)
     if log is not None:
